@@ -98,7 +98,10 @@ func (q *Queue) AddAfter(item interface{}, d time.Duration) {
 	case d <= time.Second:
 		due = now.Add(d)
 	default:
-		due = time.Now().Add(d).Round(time.Second)
+		// d was computed as deadline - realNow a moment ago; simulated deadlines are whole seconds and the
+		// real clock only moves forward, so truncating (with a millisecond of slack) recovers the deadline
+		// even if this process was descheduled for most of a second in between (loaded machine).
+		due = time.Now().Add(d).Add(time.Millisecond).Truncate(time.Second)
 		if min := now.Add(time.Second); due.Before(min) {
 			due = min
 		}
